@@ -147,8 +147,7 @@ func (s *Set) UnmarshalJSON(b []byte) error {
 func (s Set) MarshalJSON() ([]byte, error) {
 	w := &bytes.Buffer{}
 	w.WriteByte('[')
-	orderedKeys := slices.Collect(maps.Keys(s.s))
-	slices.Sort(orderedKeys)
+	orderedKeys := s.orderedSlots()
 	for i, k := range orderedKeys {
 		if i != 0 {
 			w.WriteByte(',')
@@ -164,6 +163,27 @@ func (s Set) MarshalJSON() ([]byte, error) {
 }
 
 // String produces a string representation of the Set, e.g. `[1,2,3]`.
+// orderedSlots returns the occupied slots in output order: ascending, except that members
+// whose probe sequence wrapped around past the largest hash (slot < own hash) come last.
+// Re-inserting the members in this order reproduces the same slots, so the rendering of a
+// set is stable under decoding and encoding it again (ascending order alone would put a
+// wrapped member before the member at the top slot it collided with, and the two would
+// swap places on every round trip).
+func (s Set) orderedSlots() []uint64 {
+	orderedKeys := slices.Collect(maps.Keys(s.s))
+	slices.Sort(orderedKeys)
+	var wrapped []uint64
+	kept := orderedKeys[:0]
+	for _, k := range orderedKeys {
+		if k < s.s[k].hash() {
+			wrapped = append(wrapped, k)
+		} else {
+			kept = append(kept, k)
+		}
+	}
+	return append(kept, wrapped...)
+}
+
 func (s Set) String() string { return string(s.MarshalCedar()) }
 
 // MarshalCedar produces a valid MarshalCedar language representation of the Set, e.g. `[1,2,3]`.
@@ -171,8 +191,7 @@ func (s Set) String() string { return string(s.MarshalCedar()) }
 func (s Set) MarshalCedar() []byte {
 	var sb bytes.Buffer
 	sb.WriteRune('[')
-	orderedKeys := slices.Collect(maps.Keys(s.s))
-	slices.Sort(orderedKeys)
+	orderedKeys := s.orderedSlots()
 	for i, k := range orderedKeys {
 		if i != 0 {
 			sb.WriteString(", ")
